@@ -34,7 +34,7 @@ REPLAY_GROUPS = '''
 sys.path.insert(0, '/verif')
 from vlib.schedreplay import groups_disagree
 from corpus import tv_designs
-msg = groups_disagree(tv_designs.get(%(name)r), %(ga)r, %(gb)r, %(state)r, %(cycles)r)
+msg = groups_disagree(tv_designs.get(%(name)r), %(ga)r, %(gb)r, %(state)r, %(cycles)r, %(ffo)r)
 if msg: reproduced(%(name)r + ": " + msg)
 '''
 
@@ -124,6 +124,7 @@ def item_groups(it):
   runs = {}
   probe = {}
   inputs = None
+  ff_orders = {}
   for g in GROUP_NAMES:
     try:
       sim = SymSim(mk(name)(), group=g)
@@ -132,6 +133,7 @@ def item_groups(it):
       res['note'] = f"group {g}: not elaborable/schedulable: {type(e).__name__}: {str(e)[:80]}"; res['verdict'] = 'rejected'
       return res.r
     top = sim.top
+    ff_orders[g] = [repr(top.get_update_block_host_component(f)) + '.' + f.__name__ for f in top.get_all_update_ff()]
     ins = sorted(c.name for c in sim.cells if any(n.count('.') == 1 and '[' not in n.split('.')[1][:0] for n in [c.name]) and _is_top_input(sim, c))
 
     def run(sim=sim, top=top, ins=ins):
@@ -168,7 +170,7 @@ def item_groups(it):
           state = {n: gv(x) for n, x in probe.items()}
           cycles = [{n: gv(z3.BitVec(f"{n}@{t}", probe[n].size())) for n in inputs if n != 's.clk'} for t in range(K)]
           res['violations'].append(dict(key=f"groups:{kname}:{base}/{g}", what=f"{res['name']} [{kname}]: pass groups {base} and {g} disagree",
-                                        replay=REPLAY_GROUPS % dict(name=name, ga=base, gb=g, state=state, cycles=cycles)))
+                                        replay=REPLAY_GROUPS % dict(name=name, ga=base, gb=g, state=state, cycles=cycles, ffo={base: ff_orders.get(base), g: ff_orders.get(g)})))
         else: res['inconclusive'].append(f"{base}/{g}: solver unknown")
   res['twins_expected'] = 0
   res['distinct'].append(res['name'])
